@@ -62,6 +62,9 @@ type c41E2E struct {
 	Token   string    `json:"token"`
 	JSON    bool      `json:"json"`
 	Text    bool      `json:"text"`
+	Perms   []string  `json:"perms"`
+	Real    bool      `json:"real"`
+	Slow    bool      `json:"slow"`
 }
 
 type c41Wire struct {
@@ -129,6 +132,7 @@ func c41Run(t *testing.T, c c41E2E, file string, child bool) (res c41Wire) {
 		Admin:         c.Admin,
 		Authenticated: c.Auth,
 		Token:         c.Token,
+		Permissions:   c.Perms,
 		AcceptsJSON:   c.JSON,
 		AcceptsText:   c.Text,
 		Instance:      "verif-c41",
@@ -255,12 +259,25 @@ func TestVerifC41(t *testing.T) {
 		}
 	}
 
+	// slow services are only run by the real-transport stage (TestVerifC41Real)
 	for i, c := range in.E2E {
+		if c.Slow {
+			out.Inproc = append(out.Inproc, c41Wire{Status: -1})
+
+			continue
+		}
+
 		out.Inproc = append(out.Inproc, c41Run(t, c, files[i], false))
 	}
 
 	if out.Patched {
 		for i, c := range in.E2E {
+			if c.Slow {
+				out.Child = append(out.Child, c41Wire{Status: -1})
+
+				continue
+			}
+
 			out.Child = append(out.Child, c41Run(t, c, files[i], true))
 		}
 	}
